@@ -174,6 +174,103 @@ def run_disjoint_set(report, n, rng):
             return
 
 
+def run_model_corr(report, n, rng):
+    """svg._create_use_element and svg._ensure_groups_grouped_in_glyph_order (real functions, recording stand-ins for the
+    font and the document) against Model.OtSvg, and the OT-SVG placement through the C01 placement correspondence"""
+    import types
+    from fractions import Fraction as Fr
+
+    from lxml import etree
+    from nanoemoji import svg as svgmod
+    from nanoemoji.glyph_reuse import ReuseResult
+    from picosvg.svg import SVG
+    from picosvg.svg_transform import Affine2D
+
+    from harness.common import afflit, listlit, qlit, zlit
+
+    IMPORTS = ["Model.Field Model.Affine Model.OtSvg Corr.Common Corr.C16 Corr.C02"]
+    doc = SVG.fromstring('<svg xmlns="http://www.w3.org/2000/svg" viewBox="0 0 100 100"><defs/></svg>')
+    cases, metas = [], []
+    for i in range(n):
+        k = rng.choice(["translate", "scale", "mirror", "rotate", "general", "identity"])
+        r = lambda lo, hi, den=8: Fr(rng.randint(lo * den, hi * den), den)
+        t = {
+            "translate": (1, 0, 0, 1, r(-300, 300), r(-300, 300)),
+            "scale": (r(1, 3) / 2, 0, 0, r(1, 3) / 2, r(-100, 100), r(-100, 100)),
+            "mirror": (-1, 0, 0, 1, r(0, 200), 0),
+            "rotate": (Fr(3, 5), Fr(4, 5), Fr(-4, 5), Fr(3, 5), r(-50, 50), r(-50, 50)),
+            "general": (r(-2, 2), r(-1, 1), r(-1, 1), r(-2, 2), r(-200, 200), r(-200, 200)),
+            "identity": (1, 0, 0, 1, 0, 0),
+        }[k]
+        R = Affine2D(*(float(v) for v in t))
+        parent = etree.Element("g")
+        el = svgmod._create_use_element(doc, parent, ReuseResult("donor", R))
+        x, y = Fr(el.get("x", "0")), Fr(el.get("y", "0"))
+        tr = el.get("transform")
+        obs_t = (1, 0, 0, 1, 0, 0)
+        if tr:
+            import re as _re
+
+            nums = [Fr(v) for v in _re.findall(r"-?\d+(?:\.\d+)?(?:e-?\d+)?", tr)]
+            if tr.startswith("matrix") and len(nums) == 6:
+                obs_t = tuple(nums)
+            elif tr.startswith("translate"):
+                obs_t = (1, 0, 0, 1, nums[0], nums[1] if len(nums) > 1 else 0)
+            elif tr.startswith("scale"):
+                obs_t = (nums[0], 0, 0, nums[1] if len(nums) > 1 else nums[0], 0, 0)
+            else:
+                report_failure(report, f"use_syntax_{i}", dict(kind="corr", function="svg._create_use_element", transform=tr, problem="transform syntax the harness does not read"))
+                return
+        cases.append(f"({afflit(tuple(Fr(v) for v in R))}, {qlit(x)}, {qlit(y)}, {afflit(obs_t)})")
+        metas.append(dict(function="svg._create_use_element", kind_of_transform=k, reuse_transform=[str(v) for v in R], attributes=dict(el.attrib)))
+        report.count(("use", k, tuple(t)), k != "identity")
+        report.hist("use.kind", k)
+    common.evaluate_corr(report, IMPORTS, "Corr.C02", "use_element", "use_case", cases, metas, "use_agree", "use_prop", shard=100)
+
+    captured = {}
+    real_reorder = svgmod.reorder_glyphs
+    svgmod.reorder_glyphs = lambda font, order: captured.__setitem__("order", list(order))
+    try:
+        cases, metas = [], []
+        for i in range(n):
+            ng = rng.randint(3, 14)
+            names = [".notdef"] + [f"g{j}" for j in range(1, ng)]
+            pool = names[1:]
+            rng.shuffle(pool)
+            groups, k = [], 0
+            while k < len(pool) and rng.random() < 0.8:
+                m = rng.randint(1, 3)
+                groups.append(tuple(pool[k : k + m]))
+                k += m
+            ids = {nm: j for j, nm in enumerate(names)}
+            cgs = {nm: types.SimpleNamespace(glyph_id=ids[nm], _replace=None) for g in groups for nm in g}
+            for nm, cg in cgs.items():
+                cg._replace = (lambda c: (lambda **kw: types.SimpleNamespace(**{**c.__dict__, **kw})))(cg)
+            font = {"post": types.SimpleNamespace(formatType=2)}
+            fake = types.SimpleNamespace(getGlyphOrder=lambda names=names: list(names), __getitem__=None)
+
+            class _Font(dict):
+                def getGlyphOrder(self_inner):
+                    return list(names)
+
+            f = _Font(font)
+            captured.clear()
+            try:
+                svgmod._ensure_groups_grouped_in_glyph_order(cgs, f, tuple(groups))
+            except Exception as ex:
+                report_failure(report, f"order_raises_{i}", dict(kind="corr", function="svg._ensure_groups_grouped_in_glyph_order", order=names, groups=[list(g) for g in groups], error=f"{type(ex).__name__}: {ex}"))
+                return
+            new = captured.get("order", [])
+            gids = [(ids[nm], cgs[nm].glyph_id) for g in groups for nm in g]
+            cases.append("(" + listlit([zlit(ids[nm]) for nm in names]) + ", " + listlit([listlit([zlit(ids[nm]) for nm in g]) for g in groups]) + ", "
+                         + listlit([zlit(ids[nm]) for nm in new]) + ", " + listlit([f"({zlit(a)}, {b}%nat)" for a, b in gids]) + ")")
+            metas.append(dict(function="svg._ensure_groups_grouped_in_glyph_order", order=names, groups=[list(g) for g in groups], new_order=new))
+            report.count(("order", tuple(names), tuple(groups)), bool(groups))
+        common.evaluate_corr(report, IMPORTS, "Corr.C02", "ensure_order", "ord_case", cases, metas, "ord_agree", "ord_agree", shard=100)
+    finally:
+        svgmod.reorder_glyphs = real_reorder
+
+
 def main(argv):
     common.setup_env()
     tier = common.tier_from_args(argv)
@@ -189,6 +286,12 @@ def main(argv):
     st = proof_gate(report)
     rng = random.Random(report.seed)
     run_disjoint_set(report, 200 if tier == "quick" else 4000, rng)
+    if common.vo_ok("Corr/C02.v"):
+        run_model_corr(report, 80 if tier == "quick" else 1500, random.Random(rng.getrandbits(48)))
+        # the OT-SVG placement (map_viewbox_to_otsvg_space) is part of the placement correspondence of C01
+        from harness import c01
+
+        c01.run_placement(report, 150 if tier == "quick" else 3000, random.Random(rng.getrandbits(48)))
     run_e2e(report, 24 if tier == "quick" else 600, rng)
     if not st["proof_ok"] and not report.violations:
         report.violation("proof", dict(kind="proof", theorem="Props/C02.v", detail=report.notes.get("proof_failure")), found_input=False)
